@@ -2600,9 +2600,11 @@ class Circuit(AbstractCircuit):
         groups = _group_until_different(insertions, key=lambda e: e[0], val=lambda e: e[1])
         for i, group in groups:
             insert_index = i + shift
-            next_index = copy.insert(insert_index, reversed(group), InsertStrategy.EARLIEST)
-            if next_index > insert_index:
-                shift += next_index - insert_index
+            num_moments = len(copy._moments)
+            copy.insert(insert_index, reversed(group), InsertStrategy.EARLIEST)
+            # Later insertions shift by the number of moments this one created, as documented
+            # (operations that joined existing moments do not move anything).
+            shift += len(copy._moments) - num_moments
         self._moments = copy._moments
         self._mutated()
 
